@@ -1,9 +1,41 @@
 /* Harnesses: one per function under contract (dfcc assumes the requires, checks assigns+ensures). */
-int ghost_k;
+int ghost_k, g_m;
 int g_ratio_n; Real g_ratio_res; int g_sc_n; Real g_sc_x[4], g_sc_s[4], g_sc_r[4];
 void h_boundUnilateral(void) { Real s; Real* p; boundUnilateral(s, p); }
 void h_boundScalar(void)     { Real lb, ub; Real* p; boundScalar(lb, p, ub); }
-void h_boundVector(void)     { Real L; struct IdxArray* IV; struct Vec* pi; boundVector(L, IV, pi); }
-void h_boundFriction(void)   { Real mu; struct IdxArray* IN; struct IdxArray* IF; struct Vec* pi; boundFriction(mu, IN, IF, pi); }
-void h_doUpdate(void)        { int row; struct Mat* A; struct Vec* D; struct Vec* rhs; Real sor, rs; struct Vec* pi; doUpdate(row, A, D, rhs, sor, rs, pi); }
-void h_doUpdates(void)       { struct IdxArray* rows; struct Mat* A; struct Vec* D; struct Vec* rhs; Real sor; struct RealArray* rs; struct Vec* pi; doUpdates(rows, A, D, rhs, sor, rs, pi); }
+void h_boundVector(void)     { Real L; struct IdxArray* IV; Real* pi; boundVector(L, IV, pi); }
+void h_boundFriction(void)   { Real mu; struct IdxArray* IN; struct IdxArray* IF; Real* pi; boundFriction(mu, IN, IF, pi); }
+void h_doUpdate(void)        { int row; struct Mat* A; Real* D; int Dn; Real* rhs; Real sor, rs; Real* pi; doUpdate(row, A, D, Dn, rhs, sor, rs, pi); }
+void h_doUpdates(void)       { struct IdxArray* rows; struct Mat* A; Real* D; int Dn; Real* rhs; Real sor; struct RealArray* rs; Real* pi; doUpdates(rows, A, D, Dn, rhs, sor, rs, pi); }
+
+#ifdef EXACT_SQ
+/* ---- bounded stand-in: the REAL products (vf_sq(x) = x*x, vf_mul(a,b) = a*b, see pgs_pre.h) on a small
+   integer domain, so that the condition code can be compared with the exact integer inequality.
+   Plain harness (no contracts): sqrt/scale are nondeterministic here, only the decision is observed. */
+double nondet_double(void);
+int nondet_int(void);
+double vf_sqrt_ratio(double a, double b) { return nondet_double(); }
+double vf_scale(double x, double s) { return nondet_double(); }
+static int small(int lo, int hi) { int v = nondet_int(); __CPROVER_assume(lo <= v && v <= hi); return v; }
+void h_boundVector_exact(void) {
+  int a[4], L = small(0, EXACT_RANGE * 2); unsigned n; struct IdxArray IV; Real pi[4], pi0[4];
+  for (int j = 0; j < 4; j++) { a[j] = small(-EXACT_RANGE, EXACT_RANGE); pi0[j] = pi[j] = (Real)a[j]; }
+  __CPROVER_assume(n <= 3 && WF_IDX(&IV, 4) && DISTINCT(&IV)); IV.n = n;
+  enum FricCond r = boundVector((Real)L, &IV, pi);
+  long norm2 = 0; for (unsigned j = 0; j < 3; j++) if (j < n) norm2 += (long)a[IV.d[j]] * a[IV.d[j]];
+  __CPROVER_assert((r == Rolling) == (norm2 <= (long)L * L), "boundVector: Rolling <=> ||pi[IV]||^2 <= maxLen^2 (exact integers)");
+  __CPROVER_assert(r == Rolling || r == Sliding, "boundVector: condition code is Rolling or Sliding");
+  for (int j = 0; j < 4; j++) __CPROVER_assert(r != Rolling || pi[j] == pi0[j], "boundVector: unchanged when inside");
+}
+void h_boundFriction_exact(void) {
+  int a[6], mu = small(0, 3); unsigned nN, nF; struct IdxArray IN, IF; Real pi[6], pi0[6];
+  for (int j = 0; j < 6; j++) { a[j] = small(-EXACT_RANGE, EXACT_RANGE); pi0[j] = pi[j] = (Real)a[j]; }
+  __CPROVER_assume(nN <= 3 && nF <= 3); IN.n = nN; IF.n = nF;
+  for (int j = 0; j < 3; j++) { IN.d[j] = j; IF.d[j] = 3 + j; }      /* concrete index sets keep the instance small */
+  enum FricCond r = boundFriction((Real)mu, &IN, &IF, pi);
+  long N2 = 0, F2 = 0;
+  for (unsigned j = 0; j < 3; j++) { if (j < nN) N2 += (long)a[IN.d[j]] * a[IN.d[j]]; if (j < nF) F2 += (long)a[IF.d[j]] * a[IF.d[j]]; }
+  __CPROVER_assert((r == Rolling) == (F2 <= (long)mu * mu * N2), "boundFriction: Rolling <=> ||pi[IF]||^2 <= mu^2 ||pi[IN]||^2 (exact integers)");
+  for (int j = 0; j < 6; j++) __CPROVER_assert(r != Rolling || pi[j] == pi0[j], "boundFriction: unchanged when inside");
+}
+#endif
